@@ -1,7 +1,8 @@
 (* C04 - DTCWT perfect reconstruction: level 1 on a column, for ANY symmetric odd analysis pair and synthesis pair that
    meet the biorthogonal condition (discharged for the shipped tables, within 2^-44, in C18_tables: level1_PR and
    level1_symmetric), and the quad <-> complex conversion. *)
-From PW Require Import Base.Ops Base.Sum Base.Sig Base.Tensor Model.Dwt Model.Dtcwt Spec.Line Proofs.QuadProofs Proofs.SymExt.
+From PW Require Import Base.Ops Base.Sum Base.Sig Base.Tensor Model.Dwt Model.Dtcwt Spec.Line Spec.DtcwtRef Proofs.DwtNF Proofs.DtcwtNF Proofs.QuadProofs Proofs.SymExt
+  Proofs.QshiftAdj Proofs.QshiftPR Proofs.QshiftTensor Proofs.TablesProofs Proofs.QshiftTables.
 
 (* the symmetric extension of the output of a symmetric odd filter is the line filtering of the symmetric extension:
    this is what lets the synthesis filters see a correctly extended signal *)
@@ -39,3 +40,52 @@ Example C04_legall_kernel :
                    + sumZ ZOps 0 5 (fun b => if inr 3 (d - b) then g1 b * h1 (d - b) else 0)) =? (if d =? 3 then 32 else 0))
           [0;1;2;3;4;5;6] = true.
 Proof. vm_compute. reflexivity. Qed.
+
+(* ---- levels >= 2: the q-shift stage ---- *)
+(* the symmetric extension of the decimated dual-tree output is the dual-tree formula itself at every index - when the
+   tree-b filter is the tree-a filter reversed: this is what lets colifilt see a correctly extended signal *)
+Theorem C04_qshift_extension_commutes :
+  forall (R:Type) (Op:Ops R) (Rth:RingOk Op) m r e (fe' fo' x:Z->R) k, 2 <= m -> 0 < r /\ r mod 4 = 0 ->
+  (forall j, 0 <= j < m -> fo' j = fe' (m-1-j)) ->
+  ext_sym (r/2) (Dk Op m r e fe' fo' x) k = Dk Op m r e fe' fo' x k.
+Proof. intros R Op Rth m r e fe' fo' x k Hm Hr Hv. exact (ext_Dk Op Rth m r e x x fe' fo' x Hr Hv k). Qed.
+Print Assumptions C04_qshift_extension_commutes.
+
+(* one stage on a column: colifilt (coldfilt x) over the lowpass and the highpass pair sums to x, for EVERY column length
+   r = 0 mod 4 (also shorter than the filters), every even filter length, both sampling layouts, under
+   (i) RevPair: each b filter is the a filter reversed, (ii) QPRref: the filter-only kernel condition (4 output phases) *)
+Theorem C04_qshift_stage_line :
+  forall (R:Type) (Op:Ops R) (Rth:RingOk Op) m r (pos0 pos1:bool) (h0a h0b g0a g0b h1a h1b g1a g1b x:Z->R) u,
+  2 <= m -> m mod 2 = 0 -> 0 < r -> r mod 4 = 0 ->
+  RevPair m h0a h0b -> RevPair m g0a g0b -> RevPair m h1a h1b -> RevPair m g1a g1b ->
+  QPRref Op m pos0 h0a h0b g0a g0b pos1 h1a h1b g1a g1b -> 0 <= u < r ->
+  radd Op (ref_colifilt Op m (r/2) g0a g0b (ref_coldfilt Op m r h0a h0b x pos0) pos0 u)
+          (ref_colifilt Op m (r/2) g1a g1b (ref_coldfilt Op m r h1a h1b x pos1) pos1 u) = x u.
+Proof. exact @qshift_pr_ref. Qed.
+Print Assumptions C04_qshift_stage_line.
+
+(* on the model of the code (column pass of fwd_j2plus / inv_j2plus: lowpass branch highpass=False, highpass branch True) *)
+Theorem C04_qshift_stage_col :
+  forall (R:Type) (Op:Ops R) (Rth:RingOk Op) (x:@ten R) L (H0A H0B G0A G0B H1A H1B G1A G1B:Z->R),
+  2 <= L -> L mod 2 = 0 -> 4 <= tH x -> tH x mod 4 = 0 -> 1 <= tW x -> 0 < tC x ->
+  RevPair L H0A H0B -> RevPair L G0A G0B -> RevPair L H1A H1B -> RevPair L G1A G1B ->
+  QPRref Op L true H0A H0B G0A G0B false H1A H1B G1A G1B ->
+  is_ok (dfilt Op 2 x L (rev_filt L H0A) (rev_filt L H0B) false) (fun lo =>
+  is_ok (dfilt Op 2 x L (rev_filt L H1A) (rev_filt L H1B) true) (fun hi =>
+  is_ok (ifilt Op 2 lo L (rev_filt L G0A) (rev_filt L G0B) false) (fun y0 =>
+  is_ok (ifilt Op 2 hi L (rev_filt L G1A) (rev_filt L G1B) true) (fun y1 =>
+    tH y0 = tH x /\ tH y1 = tH x /\
+    forall n c i j, 0 <= c < tC x -> 0 <= i < tH x -> 0 <= j < tW x -> radd Op (tf y0 n c i j) (tf y1 n c i j) = tf x n c i j)))).
+Proof. exact @dfilt_ifilt_pr_col. Qed.
+Print Assumptions C04_qshift_stage_col.
+
+(* (i) holds exactly and (ii) within 2^-48 entrywise (qshift_32: 2^-26) for every shipped q-shift table, and all eight filters
+   of a table have the same even length; the exact condition is satisfiable over Z *)
+Theorem C04_qshift_tables :
+  qshift_revpair = true /\ qshift_same_len = true /\ qshift_kernels_ok = true.
+Proof. split; [exact (proj1 (proj2 (proj2 (proj2 (proj2 tables_ok))))) | split; [exact (proj1 qshift_kernels_hold) | exact (proj1 (proj2 qshift_kernels_hold))]]. Qed.
+Print Assumptions C04_qshift_tables.
+Example C04_QPR_satisfiable :
+  QPRref ZOps 2 true (f2 (-1) 0) (f2 0 (-1)) (f2 0 (-1)) (f2 (-1) 0) false (f2 0 (-1)) (f2 (-1) 0) (f2 (-1) 0) (f2 0 (-1)).
+Proof. exact QPR_exact_example. Qed.
+
